@@ -48,6 +48,7 @@ class CompletionEvent {
    * Peek to see if the event has been notified in any thread
    **/
   bool completed() const {
+    DISPENSO_VERIF_POINT("ce.completed.load", &impl_);
     return impl_.intrusiveStatus().load(std::memory_order_acquire);
   }
 
@@ -78,6 +79,7 @@ class CompletionEvent {
    * <code>wait*\/notify</code> sequence is still currently in play.
    **/
   void reset() {
+    DISPENSO_VERIF_POINT("ce.reset.store", &impl_);
     impl_.intrusiveStatus().store(0, std::memory_order_seq_cst);
   }
 
